@@ -43,23 +43,22 @@ def parse_jobs(fn, entry, callees=(), loops=1, est=60, c08_wip=OPEN, c19_wip=OPE
     return [a, b]
 
 
-N19 = ('FINDING (C19): arena results are never checked in parquet_types.c: a failed carquet_arena_strndup/memdup is '
-       'silently turned into a NULL member while the decoder status stays OK (postcondition "allocation failure => error '
-       'status" fails); a failed carquet_arena_calloc is dereferenced in the fill loop (native: /tmp/ptypes/native)')
-ARR = ('UNDECIDED: symbolic execution of the list fill loop (struct-sized out-parameter at a symbolic index of a '
-       'symbolic-size arena array) does not finish within 600 s on the shared machine')
+N19 = ('was a FINDING (arena results never checked: NULL member with status OK, NULL dereference in the fill loops); repaired '
+       'upstream by 9cf8d8b; the job fails again on a scratch copy with that commit reverted')
+ARR = ('list fill loops: arena modelled by malloc BODIES (-DCQV_PT_ARENA_BODIES); with the is_fresh CONTRACT for '
+       'carquet_arena_calloc symbolic execution did not finish in 600 s')
 JOBS = []
-JOBS += parse_jobs('parse_statistics', 'h_parse_statistics', est=90, c08_wip=DONE, note19=N19)
+JOBS += parse_jobs('parse_statistics', 'h_parse_statistics', est=90, c08_wip=DONE, c19_wip=DONE, note19=N19)
 JOBS += parse_jobs('parse_logical_type', 'h_parse_logical_type', loops=7, est=420, tier='thorough', timeout=1200, c08_wip=DONE,
                    note19='no allocation in this function: identical to the C08 job, not run separately')
-JOBS += parse_jobs('parse_schema_element', 'h_parse_schema_element', callees=['parse_logical_type'], c08_wip=DONE, note19=N19)
+JOBS += parse_jobs('parse_schema_element', 'h_parse_schema_element', callees=['parse_logical_type'], c08_wip=DONE, c19_wip=DONE, note19=N19)
 JOBS += parse_jobs('parse_column_metadata', 'h_parse_column_metadata', callees=['parse_statistics'], loops=7, est=600, arena_bodies=True,
-                   tier='thorough', timeout=1500, note08=ARR, note19=N19)
-JOBS += parse_jobs('parse_column_chunk', 'h_parse_column_chunk', callees=['parse_column_metadata'], c08_wip=DONE, note19=N19)
-JOBS += parse_jobs('parse_row_group', 'h_parse_row_group', callees=['parse_column_chunk'], loops=2, tier='thorough', arena_bodies=True,
-                   note08=ARR, note19=N19)
+                   tier='thorough', timeout=1500, c08_wip=DONE, c19_wip=DONE, note08=ARR, note19=N19)
+JOBS += parse_jobs('parse_column_chunk', 'h_parse_column_chunk', callees=['parse_column_metadata'], c08_wip=DONE, c19_wip=DONE, note19=N19)
+JOBS += parse_jobs('parse_row_group', 'h_parse_row_group', callees=['parse_column_chunk'], loops=2, tier='quick', est=60, arena_bodies=True,
+                   c08_wip=DONE, c19_wip=DONE, note08=ARR, note19=N19)
 JOBS += parse_jobs('parquet_parse_file_metadata', 'h_parse_file_metadata', callees=['parse_schema_element', 'parse_row_group'], arena_bodies=True,
-                   loops=5, est=600, tier='thorough', replayer=FZ_FM, note08=ARR + ' (not run to completion)', note19=N19)
+                   loops=5, est=200, tier='thorough', replayer=FZ_FM, c08_wip=DONE, c19_wip=DONE, note08=ARR, note19=N19)
 JOBS += parse_jobs('parquet_parse_page_header', 'h_parse_page_header', loops=4, est=160, replayer=FZ_PH, c08_wip=DONE,
                    note19='no allocation in this function: identical to the C08 job, not run separately')
 
@@ -86,10 +85,9 @@ def writer_job(fn, entry, callees=(), loops=0, wip=OPEN, **kw):
 JOBS += [
     writer_job('write_statistics', 'h_write_statistics', wip=DONE),
     writer_job('write_logical_type', 'h_write_logical_type', wip=DONE, est_s=120),
-    writer_job('write_schema_element', 'h_write_schema_element', callees=['write_logical_type'],
-               note='FINDING (C13): SchemaElement.name is "required" in parquet.thrift but field 4 is written only when '
-                    'elem->name != NULL (parquet_types.c write_schema_element); every other obligation is discharged '
-                    '(see c13_write_schema_element_named)'),
+    writer_job('write_schema_element', 'h_write_schema_element', callees=['write_logical_type'], wip=DONE,
+               note='was a FINDING (required field 4 "name" omitted for a NULL name); repaired upstream by 76037b5; fails again '
+                    'with that commit reverted'),
     writer_job('write_schema_element', 'h_write_schema_element', callees=['write_logical_type'], name='c13_write_schema_element_named',
                defines=['CQV_PT_WRITER=1', 'CQV_FN_write_schema_element=1', 'CQV_SE_NAMED=1'], wip=DONE),
     writer_job('write_column_metadata', 'h_write_column_metadata', callees=['write_statistics'], loops=2, wip=DONE),
